@@ -112,7 +112,7 @@ class B(object):
         if k == 10:
             return '(%s, %s)' % (self.expr(ctx, depth + 1, forbid), self.expr(ctx, depth + 1, forbid))
         if k == 11:
-            return '%s.attr' % self.pick([n for n in ctx.get('bound', ()) if n in POOL] or POOL)
+            return '%s.attr' % self.pick([n for n in ctx.get('bound', ()) if n in POOL and n not in forbid] or [n for n in POOL if n not in forbid] or ['print'])
         if k == 12 and self.funcs:
             return self.call_expr(ctx, depth, forbid)
         if k == 13 and self.classes:
@@ -121,23 +121,28 @@ class B(object):
         if k == 14 and self.room():
             self.dec()
             self.features.add('ternary')
-            return '(%s if %s else %s)' % (self.expr(ctx, depth + 1, forbid), rd(), self.expr(ctx, depth + 1, forbid))
+            c3 = dict(ctx, no_walrus=True) if self.profile == 'c03' else ctx
+            return '(%s if %s else %s)' % (self.expr(c3, depth + 1, forbid), rd(), self.expr(c3, depth + 1, forbid))
         if k == 15 and self.room():
             self.dec()
             self.features.add('boolop')
-            return '(%s %s %s)' % (self.expr(ctx, depth + 1, forbid), self.pick(['and', 'or']), self.expr(ctx, depth + 1, forbid))
-        if k == 16 and not ctx.get('no_walrus') and not ctx.get('in_class_direct'):
+            c3 = dict(ctx, no_walrus=True) if self.profile == 'c03' else ctx
+            return '(%s %s %s)' % (self.expr(ctx, depth + 1, forbid), self.pick(['and', 'or']), self.expr(c3, depth + 1, forbid))
+        if k == 16 and not ctx.get('no_walrus') and not ctx.get('in_class_direct') and not (
+                self.profile != 'c01' and getattr(self, 'stmt_has_comp', False)):
             self.features.add('walrus')
+            self.stmt_has_walrus = True
             n = self.name()
             if n in forbid or n in ctx.get('globals_declared', ()) and False:
                 return rd()
-            e = '(%s := %s)' % (n, self.expr(ctx, depth + 1, forbid))
+            e = '(%s := %s)' % (n, self.expr(dict(ctx, no_walrus=True), depth + 1, forbid))
             if not ctx.get('in_lambda'):
                 self.bind(ctx, [n])
             return e
         if k == 17:
             return self.lambda_expr(ctx, depth, forbid)
-        if k in (18, 19, 20) and self.room():
+        if k in (18, 19, 20) and self.room() and not (self.profile != 'c01' and getattr(self, 'stmt_has_walrus', False)):
+            self.stmt_has_comp = True
             return self.comp_expr(ctx, depth, forbid)
         if k == 21:
             return '%s + %s' % (rd(), self.expr(ctx, depth + 1, forbid))
@@ -221,7 +226,7 @@ class B(object):
                 self.dec()
                 cond = self.expr(dict(inner, extra_reads=extra + vars_), depth + 1, forbid)
                 wn = self.pick(POOL)
-                if (self.chance(30) and not ctx.get('in_class_direct') and not ctx.get('no_walrus') and wn not in vars_
+                if (self.profile == 'c01' and self.chance(30) and not ctx.get('in_class_direct') and not ctx.get('no_walrus') and wn not in vars_
                         and wn not in COMP_VARS and wn not in forbid and kind != 'gen'):
                     cond = '(%s := %s)' % (wn, cond)
                     self.features.add('walrus-in-comp')
@@ -286,6 +291,8 @@ class B(object):
 
     def stmt(self, ctx, ind, depth):
         self.budget[0] -= 1
+        self.stmt_has_comp = False
+        self.stmt_has_walrus = False
         in_func = ctx.get('in_func', False)
         in_loop = ctx.get('in_loop', False)
         choices = ['assign'] * 6 + ['use'] * 4 + ['annassign', 'chain', 'lam']
@@ -367,7 +374,7 @@ class B(object):
             return self.s_use(ctx, ind, depth)
         if self.chance(50):
             n = self.name()
-            line = ind + '%s = %s' % (n, self.call_expr(ctx, 0, ()))
+            line = ind + '%s = %s' % (n, self.call_expr(ctx, 0, (n,) if self.profile != 'c01' else ()))
             self.bind(ctx, [n])
             return [line]
         return [ind + self.call_expr(ctx, 0, ())]
@@ -421,6 +428,8 @@ class B(object):
         return lines
 
     def s_try(self, ctx, ind, depth):
+        if self.profile == 'c03':
+            return self.s_try_c03(ctx, ind, depth)
         self.features.add('try')
         c2 = dict(ctx, in_block=True)
         body = self.block(c2, ind + '    ', depth + 1, 1, 3)
@@ -473,22 +482,62 @@ class B(object):
             lines += self.block(c2, ind + '    ', depth + 1, 1, 2)
         return lines
 
+    def s_try_c03(self, ctx, ind, depth):
+        """try whose handler is reachable exactly along the two edges supp models: from before the body
+        (first statement raises) and from the end of the body (last statement raises)."""
+        self.features.add('try')
+        c2 = dict(ctx, in_block=True)
+        body = self.block(c2, ind + '    ', depth + 1, 1, 3)
+        lines = [ind + 'try:']
+        handler = self.chance(65)
+        if handler:
+            self.dec(2)
+            self.features.add('try-raises-first')
+            self.features.add('try-raises-last')
+            body = [ind + '    risky()'] + body + [ind + '    risky()']
+        lines += body
+        if handler:
+            if self.chance(60):
+                en = EXC_NAMES[0]
+                lines.append(ind + 'except ValueError as %s:' % en)
+                self.features.add('except-as')
+                extra = list(ctx.get('extra_reads', [])) + [en]
+            else:
+                lines.append(ind + 'except ValueError:')
+                extra = list(ctx.get('extra_reads', []))
+            lines += self.block(dict(c2, extra_reads=extra), ind + '    ', depth + 1, 1, 2)
+            if self.chance(40):
+                self.features.add('try-else')
+                lines.append(ind + 'else:')
+                lines += self.block(c2, ind + '    ', depth + 1, 1, 2)
+        if not handler or self.chance(35):
+            self.features.add('finally')
+            lines.append(ind + 'finally:')
+            lines += self.block(c2, ind + '    ', depth + 1, 1, 2)
+        return lines
+
     def s_with(self, ctx, ind, depth):
         self.features.add('with')
-        items = []
+        plan = []
         bound = []
         for _ in range(self.draw(st.integers(1, 2))):
-            e = self.expr(ctx, 1, tuple(bound) if self.profile != 'c01' else ())
             if self.chance(65):
                 t, names = self.target(ctx, allow_star=False)
                 bound += names
-                self.bind(ctx, names)
-                if ',' in t:
-                    t = '(%s)' % t
-                    self.features.add('with-tuple-target')
-                items.append('%s as %s' % (e, t))
+                plan.append((t, names))
             else:
+                plan.append((None, []))
+        items = []
+        for t, names in plan:
+            e = self.expr(ctx, 1, tuple(bound) if self.profile != 'c01' else ())
+            if t is None:
                 items.append(e)
+                continue
+            if ',' in t:
+                t = '(%s)' % t
+                self.features.add('with-tuple-target')
+            items.append('%s as %s' % (e, t))
+        self.bind(ctx, bound)
         if len(items) > 1:
             self.features.add('with-multi')
         lines = [ind + 'with %s:' % ', '.join(items)]
@@ -560,22 +609,25 @@ class B(object):
     def _call_stmt(self, ctx, ind, fname, prefix=''):
         lo, hi, kwreq, _ = self.funcs[fname] if not prefix else ctx['_msig']
         n = self.draw(st.integers(lo, hi))
-        args = [self.expr(ctx, 2) for _ in range(n)]
+        t = self.name() if self.chance(40) else None
+        forbid = (t,) if t and self.profile != 'c01' else ()
+        args = [self.expr(ctx, 2, forbid) for _ in range(n)]
         for kname in kwreq:
-            args.append('%s=%s' % (kname, self.expr(ctx, 2)))
+            args.append('%s=%s' % (kname, self.expr(ctx, 2, forbid)))
         self.features.add('call')
         callx = '%s%s(%s)' % (prefix, fname, ', '.join(args))
-        if self.chance(40) and self.room():
+        if t is None and self.chance(50) and self.room():
             self.dec()
             self.features.add('call-under-if')
             return [ind + 'if %s:' % self._read(ctx, ()), ind + '    ' + callx]
-        if self.chance(40):
-            t = self.name()
+        if t is not None:
             self.bind(ctx, [t])
             return [ind + '%s = %s' % (t, callx)]
         return [ind + callx]
 
     def params(self, ctx, is_method, forbid):
+        if self.profile != 'c01':
+            ctx = dict(ctx, no_walrus=True)
         out = []
         names = []
         pool = [n for n in POOL]
